@@ -104,3 +104,67 @@ Proof.
   repeat split; try lia.
   intros r [<-|Hr]; [exact F1|exact (I3 r Hr)].
 Qed.
+
+(* ---- detection agrees with verification at dataset level (C06): no flag column is produced exactly when
+   verification of the same fields counts no failure *)
+
+Lemma count_false_nonneg l : 0 <= count_false l.
+Proof. unfold count_false. lia. Qed.
+
+Lemma count_false_zero_iff l : count_false l = 0 <-> forall b, In b l -> b = true.
+Proof.
+  split; [|apply count_false_all_true].
+  induction l as [|b l IH]; intros H b' Hb'; [destruct Hb'|].
+  rewrite count_false_cons in H. pose proof (count_false_nonneg l) as Hn.
+  destruct b; destruct Hb' as [<-|Hb']; try reflexivity; try lia; apply IH; try assumption; lia.
+Qed.
+
+Lemma flags_list_nil_iff p c ks :
+  flat_map (fun k => match flags_of p c k with Some l => [l] | None => [] end) ks = [] <->
+  forall k, In k ks -> verify p (Some c) k = true.
+Proof.
+  induction ks as [|k ks IH]; cbn [flat_map]; [split; [intros _ k []|reflexivity]|].
+  split.
+  - intros H. apply app_eq_nil in H. destruct H as [Hk Hks].
+    intros k' [<-|Hk'].
+    + destruct (verify p (Some c) k) eqn:Ev; [reflexivity|].
+      exfalso. apply (flags_for_every_failure_proof p c k Ev).
+      destruct (flags_of p c k); [discriminate|reflexivity].
+    + exact (proj1 IH Hks k' Hk').
+  - intros H. unfold flags_of at 1. rewrite (H k (or_introl eq_refl)). cbn [app].
+    apply IH. intros k' Hk'. apply H. right. exact Hk'.
+Qed.
+
+Lemma sum_failures_nonneg p (fs : list (option column * list constr)) :
+  0 <= fold_right Z.add 0 (map fr_failures (map (fun f => verify_field p (fst f) (snd f)) fs)).
+Proof.
+  induction fs as [|f fs IH]; cbn [map fold_right]; [lia|].
+  destruct (field_totals_spec_proof p (fst f) (snd f)) as (_ & _ & H3 & _). cbv zeta in H3.
+  rewrite H3. pose proof (count_false_nonneg (map (verify p (fst f)) (snd f))). lia.
+Qed.
+
+Theorem detect_agrees_with_verify_proof p fields nrows :
+  d_columns (detect p fields nrows) = [] <-> v_failures (verify_dataset p (as_fields fields)) = 0.
+Proof.
+  destruct (dataset_totals_spec_proof p (as_fields fields)) as (H1 & _ & H3). cbv zeta in H1, H3.
+  rewrite H3, H1. unfold detect, as_fields. cbn [d_columns]. clear H1 H3.
+  induction fields as [|f fs IH]; [split; reflexivity|].
+  cbn [flat_map map fold_right]. cbn [fst snd].
+  destruct (field_totals_spec_proof p (Some (fst f)) (snd f)) as (_ & _ & F3 & _). cbv zeta in F3.
+  rewrite F3.
+  pose proof (count_false_nonneg (map (verify p (Some (fst f))) (snd f))) as Hn.
+  pose proof (sum_failures_nonneg p (map (fun f0 : column * list constr => (Some (fst f0), snd f0)) fs)) as Hs.
+  split.
+  - intros H. apply app_eq_nil in H. destruct H as [Hf Hfs].
+    apply IH in Hfs. rewrite Hfs.
+    assert (count_false (map (verify p (Some (fst f))) (snd f)) = 0); [|lia].
+    apply count_false_zero_iff. intros b Hb. apply in_map_iff in Hb. destruct Hb as [k [<- Hk]].
+    exact (proj1 (flags_list_nil_iff p (fst f) (snd f)) Hf k Hk).
+  - intros H.
+    assert (Hc : count_false (map (verify p (Some (fst f))) (snd f)) = 0) by lia.
+    assert (Hr : fold_right Z.add 0 (map fr_failures (map (fun f0 => verify_field p (fst f0) (snd f0))
+                   (map (fun f0 : column * list constr => (Some (fst f0), snd f0)) fs))) = 0) by lia.
+    apply IH in Hr. rewrite Hr, app_nil_r.
+    apply flags_list_nil_iff. intros k Hk.
+    apply (proj1 (count_false_zero_iff _) Hc). apply in_map. exact Hk.
+Qed.
